@@ -83,7 +83,7 @@ func (c *Ctx) buildSiteInfo(s *ReportSite) *siteInfo {
 		all = all.union(si.Flow.Guards)
 		// entry guards of every function the value passes through are part of the path condition as well
 	}
-	si.All = P.Expand(all.list())
+	si.All = c.constFolded(P.Expand(all.list()))
 	for _, l := range si.All {
 		// x != x on the way: this calling context can never produce the violation (e.g. a shared finder called
 		// with the current package as the declaring package)
@@ -250,11 +250,14 @@ func (c *Ctx) namedAssertPred(wantPtrStrip bool, detail *string) func(l Lit) boo
 				*detail = "operand of the *types.Named assertion is not un-aliased: " + short(P.termDesc(r, false))
 				return false
 			}
-			arg := call.Call.Args[0]
-			if P.RootsAny(arg, func(a ssa.Value) bool { return P.CallTo(a, "(*go/types.Pointer).Elem") != nil }) {
-				sawElem = true
-			} else {
-				sawPlain = true
+			// one Unalias call may serve both origins: Unalias(t) with t the operand's type or, behind a pointer,
+			// its element
+			for _, a := range P.Resolve(call.Call.Args[0]) {
+				if P.CallTo(a, "(*go/types.Pointer).Elem") != nil {
+					sawElem = true
+				} else {
+					sawPlain = true
+				}
 			}
 		}
 		if !sawPlain {
